@@ -447,3 +447,150 @@ func flattenActions(src string) string {
 		return "‹" + strings.ReplaceAll(body, "\n", " ") + "›" + nl
 	})
 }
+
+var reInlineIf = regexp.MustCompile(`\{\{-?\s*if [^}]*\}\}([^{}]*)\{\{-?\s*else\s*-?\}\}([^{}]*)\{\{-?\s*end\s*-?\}\}`)
+var rePlainErrAssign = regexp.MustCompile(`(?:^|[\s,(])err\s*=[^=]`)
+
+// errAccumulatorRule: generated decoders collect every violation of a request
+// in one error variable (`err = goa.MergeErrors(err, …)`) and test it once at the
+// end. From the first merge on, in document order of a template, the variable
+// may hold violations already found; a plain assignment to it (`err = f()`,
+// `x, err = f()`) discards them, and the request is then judged on the last
+// source of errors alone.
+func errAccumulatorRule(c *an.Ctx, rule string, files ...string) {
+	merges, plain := 0, 0
+	for _, rel := range files {
+		b, err := os.ReadFile(filepath.Join(c.Repo, rel))
+		if err != nil {
+			c.Add(an.Obligation{Rule: rule, Construct: rel, Status: an.LOST, Detail: err.Error()})
+			continue
+		}
+		seenMerge := false
+		for ln, line := range strings.Split(string(b), "\n") {
+			alts := []string{line}
+			if m := reInlineIf.FindStringSubmatchIndex(line); m != nil {
+				alts = []string{line[:m[0]] + line[m[2]:m[3]] + line[m[1]:], line[:m[0]] + line[m[4]:m[5]] + line[m[1]:]}
+			}
+			for _, alt := range alts {
+				flat := flattenActions(alt)
+				if strings.Contains(flat, "err = goa.MergeErrors(err,") {
+					seenMerge = true
+					merges++
+					continue
+				}
+				if !rePlainErrAssign.MatchString(flat) || strings.Contains(flat, ":=") {
+					continue
+				}
+				plain++
+				if seenMerge {
+					c.Failf(rule, fmt.Sprintf("%s#%s", rel, strings.TrimSpace(flat)), 0, "%s:%d: `%s` assigns the error accumulator after violations may already have been merged into it: when this call succeeds the earlier violations are forgotten and the request reaches the service method", rel, ln+1, strings.TrimSpace(flat))
+				}
+			}
+		}
+	}
+	c.Okf(rule, "decoder templates#error accumulator", "%d merges into the accumulator; %d plain assignments, none after a merge (other than reported)", merges, plain)
+	c.Floor(rule, merges, 10, "merges into the error accumulator in the decoder templates")
+}
+
+var reConvCall = regexp.MustCompile(`\(\s*(\w+ConversionData)\s+([^()]*(?:\([^()]*\)[^()]*)*)\)`)
+var reTplArg = regexp.MustCompile(`"[^"]*"|\(printf "[^"]*" [.\w$]+\)|\((?:[^()]|\([^()]*\))*\)(?:\.\w+)*|[.$\w]+`)
+
+// convArgText renders a template argument as the text it produces in the
+// flattened template ("lit" -> lit, .VarName -> ‹.VarName›, (printf "%sraw"
+// .VarName) -> ‹.VarName›raw); "" when the argument is not a name.
+func convArgText(a string) string {
+	a = strings.TrimSpace(a)
+	switch {
+	case strings.HasPrefix(a, `"`):
+		return strings.Trim(a, `"`)
+	case strings.HasPrefix(a, "(printf "):
+		m := regexp.MustCompile(`^\(printf "([^"]*)" ([.\w$]+)\)$`).FindStringSubmatch(a)
+		if m == nil || strings.Count(m[1], "%") != 1 {
+			return ""
+		}
+		return strings.Replace(m[1], "%s", "‹"+m[2]+"›", 1)
+	case strings.HasPrefix(a, ".") || strings.HasPrefix(a, "$"):
+		return "‹" + a + "›"
+	}
+	return ""
+}
+
+// conversionRolesRule: the conversion partials emit `<VarName> := conv(<Target>)`:
+// VarName is the variable they DEFINE, Target the value they READ. The helper
+// functions that build their data (typeConversionData, headerConversionData)
+// take the two names as parameters `varName` and `target`. At every call site in
+// the templates the name passed as varName must be used by the template text
+// that follows the call (it is the result), and the name passed as target must
+// have been bound by the text before it (`name :=`, a range variable, or the
+// payload/result variable): passing them in each other's position defines the
+// source a second time and leaves the result undefined, which does not compile.
+func conversionRolesRule(c *an.Ctx, rule string, dirs ...string) {
+	roles := map[string][2]int{} // helper -> (index of varName, index of target)
+	for _, f := range c.AllFuncs("http/codegen") {
+		if !strings.HasSuffix(f.Decl.Name.Name, "ConversionData") {
+			continue
+		}
+		sig := f.Obj.Type().(*types.Signature)
+		vi, ti := -1, -1
+		for i := 0; i < sig.Params().Len(); i++ {
+			switch sig.Params().At(i).Name() {
+			case "varName":
+				vi = i
+			case "target":
+				ti = i
+			}
+		}
+		if vi >= 0 && ti >= 0 {
+			roles[f.Decl.Name.Name] = [2]int{vi, ti}
+		}
+	}
+	n := 0
+	for _, dir := range dirs {
+		for _, rel := range c.TplDir(dir) {
+			b, err := os.ReadFile(filepath.Join(c.Repo, rel))
+			if err != nil {
+				continue
+			}
+			src := string(b)
+			for _, m := range reConvCall.FindAllStringSubmatchIndex(src, -1) {
+				helper := src[m[2]:m[3]]
+				r, ok := roles[helper]
+				if !ok {
+					continue
+				}
+				args := reTplArg.FindAllString(src[m[4]:m[5]], -1)
+				if len(args) <= r[0] || len(args) <= r[1] {
+					continue
+				}
+				res, tgt := convArgText(args[r[0]]), convArgText(args[r[1]])
+				if res == "" || tgt == "" {
+					continue
+				}
+				n++
+				// the enclosing action ends at the next "}}"
+				end := m[1] + strings.Index(src[m[1]:], "}}") + 2
+				before, after := flattenActions(src[:m[0]]), flattenActions(src[end:])
+				// the partial itself recurses with fixed names; its own text before/after is the definition site
+				word := func(s, name string) bool {
+					return regexp.MustCompile(`(^|[^\w›‹.])` + regexp.QuoteMeta(name) + `([^\w‹]|$)`).MatchString(s)
+				}
+				bound := regexp.MustCompile(`(^|[^\w›‹.])` + regexp.QuoteMeta(tgt) + `\s*(,\s*[\w‹›.$]+\s*)?:?=|,\s*` + regexp.QuoteMeta(tgt) + `\s*:?=`).MatchString(before) || tgt == "p" || tgt == "res" || tgt == "v" && strings.Contains(before, "range")
+				line := 1 + strings.Count(src[:m[0]], "\n")
+				construct := fmt.Sprintf("%s#%s(%s,%s)", rel, helper, res, tgt)
+				var probs []string
+				if !word(after, res) {
+					probs = append(probs, fmt.Sprintf("the name passed as varName (%s, the variable the partial defines) is never used by the template text after the call", res))
+				}
+				if !bound && word(after, tgt) && !word(before, tgt) {
+					probs = append(probs, fmt.Sprintf("the name passed as target (%s, the value the partial reads) is not bound before the call but used after it", tgt))
+				}
+				if len(probs) > 0 {
+					c.Failf(rule, construct, 0, "%s:%d: %s: the two names are in each other's position — the generated code defines the source twice and never defines the result (does not compile)", rel, line, strings.Join(probs, "; "))
+				} else {
+					c.Okf(rule, construct, "result name used after the call, source name bound before it")
+				}
+			}
+		}
+	}
+	c.Floor(rule, n, 10, "conversion-data call sites in the templates")
+}
